@@ -5,6 +5,7 @@ mod client;
 mod conn;
 mod connmc;
 mod connref;
+mod idl;
 mod conntrace;
 mod cuts;
 mod listen;
@@ -31,6 +32,11 @@ fn main() {
         "client" => client::run(rest),
         "cli" => cli::run(rest),
         "wire" => wire::run(rest),
+        "idlnames" => idl::run_names(rest),
+        "idltok" => idl::run_tokens(rest),
+        "idlast" => idl::run_ast(rest),
+        "idlfuzz" => idl::run_fuzz(rest),
+        "idlcli" => idl::run_cli(rest),
         "clientreal" => client::run_real(rest),
         "clienttrace" => client::run_trace(rest),
         "listen" => listen::run(rest),
